@@ -297,7 +297,7 @@ fn rand_payload_pdu(rng: &mut Rng) -> (Value, Payload, u8, u8) {
             (json!({"t": "router_key", "ver": ver, "flags": flags, "ski": ski.to_vec(), "asn": asn.to_be_bytes().to_vec(), "info": info}), p, ver, flags)
         }
         _ => {
-            let n = if rng.chance(1, 6) { 0 } else if rng.chance(1, 10) { 2000 } else { rng.below(40) };
+            let n = if rng.chance(1, 6) { 0 } else if rng.chance(1, 10) { *rng.pick(&[2000u64, 16379, 16380]) } else { rng.below(40) };
             let provs: Vec<u32> = (0..n).map(|_| rng.next() as u32).collect();
             let p = Payload::aspa(Asn::from_u32(asn), ProviderAsns::try_from_iter(provs.iter().map(|x| Asn::from_u32(*x))).unwrap());
             (json!({"t": "aspa", "ver": 2, "flags": flags, "customer": asn.to_be_bytes().to_vec(), "providers": provs.iter().flat_map(|x| x.to_be_bytes()).collect::<Vec<u8>>()}), p, 2, flags)
